@@ -41,6 +41,17 @@ CHECKS = {
    note="The [-1,1] clause is checked on the implementation with a 1e-9 allowance (real outputs contain 1.0000000000000002), the model proves it "
         "exactly; aggregate probability compared with the float running product within 1e-12.",
    technique=TECH, ref="DESIGN.md section 7 C03"),
+ 'C04': dict(
+   text="Theorems: c04_mapping_schedule_independent (shared-list path: any two completion orders give the same final list, given distinct cell ids — shown necessary by "
+        "c04_duplicate_ids_refuted), c04_mapping_buffer_files_independent (the buffer-file path run_mapping uses: unconditionally), c04_final_is_query_order, "
+        "c04_seeds_fixed_at_dispatch and c04_seed_of_worker_schedule_independent (the seed of chunk i is the i-th draw of the parent stream whatever the schedule and worker "
+        "count), c04_same_chunks_same_result (worker counts inducing the same effective chunk size give the same mapping), c04_stats_merge_order_fixed (for a non-associative add), "
+        "c04_marker_merge_sorted, c04_selection_keyed_by_parent. Tie: the real stages (run_mapping, run_type_assignment_on_h5ad, statistics, markers, p-value mask, selection) under "
+        "every completion order of 3 (quick) / 4 (thorough) workers forced by harness-side delays, worker-count sweeps 1..6, and fresh interpreters under several PYTHONHASHSEED "
+        "values; outputs compared bitwise; observed chunks, completion order and per-worker seeds compared with the model.",
+   note="Partial by nature: real scheduling, Manager proxies and the absence of other nondeterminism (shared state, set/dict order) are established only by the bitwise runs. "
+        "c04_cache_sorted_by_reference_index and the pool invariant of the selection scheduler are not stated or proved; per-chunk work is an abstract function.",
+   technique="Coq proof of hand-written Gallina model + correspondence check (real stages under controlled schedules / hash seeds, bitwise comparison and model replay)", ref="DESIGN.md section 7 C04"),
  'C05': dict(
    text="Theorems: c05_chunks_cover (for every row count and chunk size >= 1 the chunk list starts at 0, is contiguous, has no empty chunk, ends at n and concatenating "
         "the row blocks gives the matrix: every row exactly once, in file order), c05_load_csr_exact, c05_iterate_csr_exact, c05_iterate_dense_exact, "
@@ -155,6 +166,19 @@ CHECKS = {
         "error kinds through an enum, vs the extracted model.",
    note="Names contain no '/'; 'metadata'/'log' keys of the table ignored; F7 is a known finding (entry of a parent that needs no markers aborts cache creation).",
    technique=TECH, ref="DESIGN.md section 7 C08"),
+ 'C14': dict(
+   text="Theorems: c14_pool_raises (the dispatch/drain loop with either exit-code inspector, for every world of exit codes and termination times, bound n >= 1 and worker count: "
+        "never hangs; Ok implies every code is 0; some non-zero code implies a raise naming a dispatched worker and its code), c14_no_unchecked_pop, c14_single_failure_reported, "
+        "c14_abnormal_codes, c14_mapping_effects / c14_failed_run_effects / c14_any_inner_failure / c14_failed_trace_has_property (a failing assignment gives run_mapping's failed-run "
+        "effect trace for all 256 configurations: re-raise, log with traceback written, JSON/HDF5 with config/log/metadata only, no results, no CSV, no success message), "
+        "c14_no_complete_output (none of the six stage descriptions reaches its completing effect after a failing worker), c14_selection_scheduler_partial. Tie: the real loops run "
+        "against stand-in processes following the model's world (virtual schedules) and exhaustive fault injection with forked workers — 3 failure modes (SIGKILL, os._exit(3), raise) x "
+        "3 crash points x every worker on all six stages (+ the nested transposition) — observing exception, exit codes, listings after all descendants exit, JSON/HDF5 keys, log text "
+        "and whether the next stage accepts what is left.",
+   note="Partial by nature: the OS, multiprocessing and the stage code's conformance to the models are validated by controlled runs, not proved. The selection scheduler's no-hang is not "
+        "proved (c14_selection_scheduler_partial). A hanging worker, a dying Manager process and a crash of the parent are not modelled. The clean-up race of the finally blocks (siblings "
+        "still writing when the parent removes the scratch dir: OSError replaces RuntimeError about 1 in 300) is an oracle input.",
+   technique="Coq proof of hand-written Gallina model + correspondence check (fault enumeration on the real stages and virtual-schedule runs of the real loops vs the extracted model)", ref="DESIGN.md section 7 C14"),
  'C15': dict(
    text="Theorems: c15_hdf5_roundtrip (hdf5_to_blob (blob_to_hdf5 b) = b for every well-formed blob with per-level uniform directly_assigned flags) with "
         "c15_roundtrip_without_uniform_flags_refuted (necessity), c15_csv_rows, c15_four_decimals (+ c15_csv_confidence_four_decimals_refuted), "
